@@ -14,6 +14,8 @@ A mismatch between design model and code is DRIFT (evidence only); verdicts come
 """
 import json
 import os
+import time
+from concurrent.futures import ThreadPoolExecutor
 
 import vlib
 
@@ -46,8 +48,52 @@ DOCTYPES = [b'<!DOCTYPE r>', b'<!DOCTYPE r SYSTEM "r.dtd">', b'<!DOCTYPE r PUBLI
             b'<!DOCTYPE r [<!ELEMENT r ANY><!ATTLIST r b CDATA #IMPLIED>]>',
             b'<!DOCTYPE r [\n <!ENTITY e "v w">\n <!ENTITY f \'x  y\'>\n]>',
             b'<!DOCTYPE r SYSTEM "a>b" [ <!ENTITY e "]>"> ]>']
+
+
+def gen_doctype(rnd):
+    """A DOCTYPE declaration from the XML 1.0 grammar (external id, internal subset with entity/element/
+    attlist declarations, comments, PIs, both literal quote kinds).  Known construct K10 is not produced:
+    none of  " [ ] >  inside a single-quoted literal, a comment or a PI of the declaration."""
+    def lit(dq_pool=(b'x', b' ', b'>', b']', b'[', b"'", b'y', b'  '), sq_pool=(b'x', b' ', b'y', b'  ', b'=')):
+        if rnd.random() < 0.6:
+            return b'"' + b''.join(rnd.choice(dq_pool) for _ in range(rnd.randrange(0, 5))) + b'"'
+        return b"'" + b''.join(rnd.choice(sq_pool) for _ in range(rnd.randrange(0, 5))) + b"'"
+    ws = lambda: rnd.choice([b' ', b'\n', b'  ', b'\t'])
+    s = b'<!DOCTYPE' + ws() + rnd.choice([b'r', b'ns:el', b'A'])
+    x = rnd.random()
+    if x < 0.25:
+        s += ws() + b'SYSTEM' + ws() + lit()
+    elif x < 0.4:
+        s += ws() + b'PUBLIC' + ws() + rnd.choice([b'"-//X//Y"', b"'-//X//Y z'"]) + ws() + lit()
+    has_e = False
+    if rnd.random() < 0.7:
+        s += rnd.choice([b'', b' ']) + b'['
+        for _ in range(rnd.randrange(0, 5)):
+            k = rnd.randrange(6)
+            if k == 0:
+                s += ws()
+            elif k == 1:
+                nm = rnd.choice([b'e', b'f', b'g.h'])
+                if nm == b'e' and has_e:
+                    nm = b'f'
+                v = lit(dq_pool=(b'x', b' ', b'>', b']', b'[', b"'", b'y', b'  '))     # no < & % (reader limit)
+                has_e = has_e or nm == b'e'
+                s += b'<!ENTITY' + ws() + nm + ws() + v + rnd.choice([b'', b' ']) + b'>'
+            elif k == 2:
+                s += b'<!ELEMENT r ANY>'
+            elif k == 3:
+                s += b'<!ATTLIST r b CDATA #IMPLIED>'
+            elif k == 4:
+                s += rnd.choice([b'<!--c-->', b'<!-- a - b = c -->', b"<!-- it's -->"])
+            else:
+                s += rnd.choice([b'<?p?>', b'<?p a?>', b"<?p a='b' ?>"])
+        s += b']' + rnd.choice([b'', b' ', b'\n'])
+    return s + b'>', has_e
+
+
 XMLDECLS = [b'', b'<?xml version="1.0"?>', b'<?xml version="1.0" encoding="UTF-8" standalone="yes"?>',
             b'<?xml  version = \'1.0\' ?>']
+STRETCH = [1] * 12 + [2, 3, 9, 20]
 ATTR_NAMES = [b'b', b'c:d', b'xml:lang', b'Z_9']
 
 
@@ -58,9 +104,14 @@ def decorate(tk, rnd, attr_pool):
     cx = rnd.choice(CDATA_WORDS)
     has_dt = any(t['k'] == 'DT' for t in tk)
     prolog = bool(tk) and tk[0]['k'] != 'TX'          # nothing may precede an XML declaration
-    dt = rnd.choice(DOCTYPES)
+    if rnd.random() < 0.3:
+        dt, has_e = rnd.choice(DOCTYPES), None
+    else:
+        dt, has_e = gen_doctype(rnd)
+    if has_e is None:
+        has_e = b'<!ENTITY e ' in dt
     dt_front = prolog and not has_dt and rnd.random() < 0.5
-    if b'<!ENTITY e ' in dt and (has_dt or dt_front) and rnd.random() < 0.5:
+    if has_e and (has_dt or dt_front) and rnd.random() < 0.5:
         wy = b'&e;'                                    # declared before the root, used inside it
     out = []
     if prolog:
@@ -105,10 +156,10 @@ def decorate(tk, rnd, attr_pool):
             for x in c:
                 s += cx if x == 120 else bytes([x])
             out.append(b'<![CDATA[' + s + b']]>')
-        elif k == 'CM':
-            out.append(rnd.choice(COMMENTS))
+        elif k == 'CM':      # comments (and PIs) are transparent to the look-ahead: long stretches exercise TokenBuffer.Peek growth
+            out.append(b''.join(rnd.choice(COMMENTS) for _ in range(rnd.choice(STRETCH))))
         elif k == 'PI':
-            out.append(rnd.choice(PIS))
+            out.append(b''.join(rnd.choice(PIS) for _ in range(rnd.choice(STRETCH))))
         elif k == 'DT':
             out.append(dt)
     doc = b''.join(out)
@@ -126,8 +177,8 @@ RULE = ('a case is (KeepWhitespace, document bytes). Documents: every complete b
         'K2 numeric reference to "&" there unless a letter/digit/# follows; K3 numeric reference to tab/LF/CR there; '
         'K4 literal CR LF inside an attribute value; K5 KeepWhitespace with blank-only element content; '
         'K7/K8 "]]" directly followed by a reference to ">" or by CDATA/text that starts with ">"; '
-        'K9 PI content that is not name="value" pseudo-attributes; K10 "]" or an odd double quote inside a '
-        'single-quoted literal or comment of an internal DTD subset; K11 a blank-initial text reached while omitSpace '
+        'K9 PI content that is not name="value" pseudo-attributes; K10 one of \" [ ] > inside a single-quoted '
+        'literal, a comment or a PI of the DOCTYPE declaration; K11 a blank-initial text reached while omitSpace '
         'is still set from before a CDATA section that does not end in a blank (history variable `hit` of XmlMachine). '
         'non-trivial = the real minifier returned bytes different from its input')
 
@@ -145,68 +196,102 @@ def generate(ctx):
         if k in seen:
             return False
         seen.add(k)
-        cases.append(dict(id=len(cases), keep=bool(keep), src=src, pred=pred, **{'in': list(data)}))
+        cases.append(dict(id=len(cases), keep=bool(keep), src=src, pred=None if pred is None else bytes(pred), **{'in': bytes(data)}))
         return True
 
-    # (MC) exhaustive design models; their behaviours are the documents
-    r = vlib.tlc_mc(ctx, 'XmlMachine', 'XmlMachine_quick.cfg' if quick else 'XmlMachine_thorough.cfg',
-                    workers=8 if quick else 16, heap='3g' if quick else '12g', timeout=3000)
-    mc = emitted(r['out'])
-    if not mc:
-        raise vlib.Infra('XmlMachine emitted no behaviours')
-    ctx.coverage['design_states_XmlMachine'] = r['distinct']
     pool_tk = []
-    for e in mc:
-        if e['known']:
-            stats['mc_known_skipped'] += 1
-            continue
-        if not e['holds']:
-            raise vlib.Infra('design counterexample outside the known constructs: %r' % bytes(e['in']))
-        if add(e['keep'], e['in'], 'mc', e['out']):
-            stats['mc_docs'] += 1
-        pool_tk.append(e)
-    r = vlib.tlc_mc(ctx, 'XmlAttr', 'XmlAttr_quick.cfg' if quick else 'XmlAttr_thorough.cfg', workers=4 if quick else 16,
-                    heap='2g' if quick else '8g', timeout=3000)
-    ctx.coverage['design_states_XmlAttr'] = r['distinct']
-    attr_pool = []
-    for e in emitted(r['out']):
-        if e['known']:
-            stats['attr_known_skipped'] += 1
-            continue
-        for keep in ((False,) if quick else (False, True)):
-            if add(keep, e['in'], 'attr', e['out']):
-                stats['attr_docs'] += 1
-        b = bytes(e['in'])
-        attr_pool.append(b[len(b'<a b='):-2])
-    if not attr_pool:
-        raise vlib.Infra('XmlAttr emitted no behaviours')
-    attr_pool = sorted(set(attr_pool))
-    # (GEN) random walks of the same machine far beyond the exhaustive bound
-    nsim = 1500 if quick else 30000
-    nproc = 1 if quick else 8
-    sims = []
-    for w in range(nproc):
+    npool = [0]
+
+    def pool(e):
+        # reservoir of token streams for re-rendering
+        npool[0] += 1
+        if len(pool_tk) < 30000:
+            pool_tk.append((e['keep'], e['tk']))
+        else:
+            j = ctx.rnd.randrange(npool[0])
+            if j < 30000:
+                pool_tk[j] = (e['keep'], e['tk'])
+
+    def take(out, src, skipped):
+        n = 0
+        for line in out.splitlines():
+            if not (line.startswith('"{') and line.endswith('}"')):
+                continue
+            e = json.loads(json.loads(line))
+            n += 1
+            if e['known']:
+                stats[skipped] += 1
+                continue
+            if not e['holds']:
+                if src == 'mc':
+                    raise vlib.Infra('design counterexample outside the known constructs: %r' % bytes(e['in']))
+                # beyond the bound, explained by no known construct: the real code decides (it is run like every other document)
+                ctx.coverage['design_counterexamples_beyond_bound'] = ctx.coverage.get('design_counterexamples_beyond_bound', 0) + 1
+            if add(e['keep'], e['in'], src, e['out']):
+                stats[src + '_docs'] += 1
+            pool(e)
+        return n
+
+    # (MC) exhaustive design models; their behaviours are the documents.  (GEN) random walks of the same
+    # machine far beyond the exhaustive bound.  The three TLC jobs run side by side.
+    nsim = 1500 if quick else 40000
+    nproc = 1 if quick else min(8, vlib.JOBS)
+
+    def job_machine():
+        return vlib.tlc_mc(ctx, 'XmlMachine', 'XmlMachine_quick.cfg' if quick else 'XmlMachine_thorough.cfg',
+                           workers=6 if quick else 16, heap='3g' if quick else '16g', timeout=3000)
+
+    def job_attr():
+        return vlib.tlc_mc(ctx, 'XmlAttr', 'XmlAttr_quick.cfg' if quick else 'XmlAttr_thorough.cfg', workers=3 if quick else 8,
+                           heap='2g' if quick else '8g', timeout=3000)
+
+    def job_sim(w):
         rs = vlib.tlc(ctx, 'XmlMachine', 'XmlMachine_sim.cfg', workers=1, simulate='num=%d' % (nsim // nproc), depth=40,
                       seed=ctx.seed * 100 + w, timeout=1500)
         if rs['errors'] or rs['invariant_violations'] or not rs['completed']:
             raise vlib.Infra('simulate failed: ' + rs['out'][-1500:])
-        sims += emitted(rs['out'])
-    for e in sims:
+        return rs['out']
+
+    t0 = time.time()
+    vlib._speccopy(ctx)        # the scratch copy of spec/ must exist before TLC jobs start in parallel
+    with ThreadPoolExecutor(max_workers=2 + nproc) as ex:
+        fm = ex.submit(job_machine)
+        fa = ex.submit(job_attr)
+        fs = [ex.submit(job_sim, w) for w in range(nproc)]
+        r = fm.result()
+        ra = fa.result()
+        outs = [f.result() for f in fs]
+    vlib.log('C06: TLC on XmlMachine, XmlAttr, simulation %.0fs' % (time.time() - t0))
+    if take(r['out'], 'mc', 'mc_known_skipped') == 0:
+        raise vlib.Infra('XmlMachine emitted no behaviours')
+    ctx.coverage['design_states_XmlMachine'] = r['distinct']
+    r['out'] = ''
+    ctx.coverage['design_states_XmlAttr'] = ra['distinct']
+    attr_pool = set()
+    for e in emitted(ra['out']):
         if e['known']:
-            stats['sim_known_skipped'] += 1
+            stats['attr_known_skipped'] += 1
             continue
         if not e['holds']:
-            # design-level counterexample beyond the bound that no known construct explains: the real code
-            # decides (it is run like every other document)
-            ctx.coverage['design_counterexamples_beyond_bound'] = ctx.coverage.get('design_counterexamples_beyond_bound', 0) + 1
-        if add(e['keep'], e['in'], 'sim', e['out']):
-            stats['sim_docs'] += 1
-        pool_tk.append(e)
+            raise vlib.Infra('design counterexample outside the known constructs: %r' % bytes(e['in']))
+        for keep in ((False,) if quick else (False, True)):
+            if add(keep, e['in'], 'attr', e['out']):
+                stats['attr_docs'] += 1
+        b = bytes(e['in'])
+        attr_pool.add(b[len(b'<a b='):-2])
+    ra['out'] = ''
+    if not attr_pool:
+        raise vlib.Infra('XmlAttr emitted no behaviours')
+    attr_pool = sorted(attr_pool)
+    for o in outs:
+        take(o, 'sim', 'sim_known_skipped')
+    del outs
+    t0 = time.time()
     # the same token streams with richer spelling
     ndec = 6000 if quick else 120000
     for i in range(ndec):
-        e = pool_tk[ctx.rnd.randrange(len(pool_tk))]
-        if add(e['keep'], decorate(e['tk'], ctx.rnd, attr_pool), 'decorated'):
+        keep, tk = pool_tk[ctx.rnd.randrange(len(pool_tk))]
+        if add(keep, decorate(tk, ctx.rnd, attr_pool), 'decorated'):
             stats['decorated'] += 1
     # the repository's own inputs
     for row in vlib.test_inputs(ctx, 'xml'):
@@ -229,6 +314,7 @@ def generate(ctx):
         for keep in (False, True):
             if add(keep, b, 'file:' + os.path.relpath(p, vlib.REPO)):
                 stats['corpus'] += 1
+    vlib.log('C06: re-rendering + repository inputs %.0fs' % (time.time() - t0))
     for c in vlib.known_cases('C06'):
         if add(c['keep'], c['in'].encode('latin1'), 'pinned'):
             stats['pinned'] += 1
@@ -236,38 +322,42 @@ def generate(ctx):
 
 
 def run_cases(ctx, exe, cases, tag):
+    """real code on every case; returns (metas, trace_lines) - trace lines stay unparsed JSON text for TLC"""
     cin = ctx.path('run', tag + '-cases.ndjson')
     tout = ctx.path('run', tag + '-trace.ndjson')
+    mout = ctx.path('run', tag + '-meta.ndjson')
     with open(cin, 'w') as f:
         for i, c in enumerate(cases):
-            f.write(json.dumps({'id': i, 'keep': c['keep'], 'in': c['in']}, separators=(',', ':')) + '\n')
-    vlib.run([exe, cin, tout], timeout=1800)
-    evs = vlib.read_ndjson(tout)
-    if len(evs) != len(cases):
-        raise vlib.Infra('harness wrote %d lines for %d cases' % (len(evs), len(cases)))
-    for e, c in zip(evs, cases):
+            f.write(json.dumps({'id': i, 'keep': c['keep'], 'in': list(c['in'])}, separators=(',', ':')) + '\n')
+    vlib.run([exe, cin, tout, mout], timeout=3000)
+    metas = vlib.read_ndjson(mout)
+    lines = open(tout).read().splitlines()
+    os.remove(cin)
+    os.remove(tout)
+    os.remove(mout)
+    if len(metas) != len(cases) or len(lines) != len(cases):
+        raise vlib.Infra('harness wrote %d/%d lines for %d cases' % (len(metas), len(lines), len(cases)))
+    for e, c in zip(metas, cases):
         if e['rerr']:
             raise vlib.Infra('the two XML readers of the harness disagree (machinery problem) on %r: %s'
-                             % (bytes(c['in'])[:200], e['rerr']))
-    return evs
+                             % (c['in'][:200], e['rerr']))
+        if e['keep'] != c['keep']:
+            raise vlib.Infra('harness lines out of order')
+    return metas, lines
 
 
-TRACE_FIELDS = ('keep', 'panic', 'err', 'outwf', 'ein', 'eout')
-
-
-def validate(ctx, evs):
+def validate(ctx, metas, lines):
     """TLC judges every execution whose input the reader accepts; returns (accepted, {index: [clauses]})"""
-    idx = [i for i, e in enumerate(evs) if e['inwf']]
-    small = [i for i in idx if len(evs[i]['ein']) <= 3000]
-    large = [i for i in idx if len(evs[i]['ein']) > 3000]
+    idx = [i for i, e in enumerate(metas) if e['inwf']]
+    small = [i for i in idx if metas[i]['nin'] <= 3000]
+    large = [i for i in idx if metas[i]['nin'] > 3000]
     accepted = 0
     why = {}
     for part, mps in ((small, 400), (large, 1)):
         if not part:
             continue
-        lines = [{k: evs[i][k] for k in TRACE_FIELDS} for i in part]
-        acc, rej = vlib.tlc_trace(ctx, 'C06Trace', 'C06Trace.cfg', lines, min_per_shard=mps, heap='3g' if mps > 1 else '6g',
-                                  timeout=2400)
+        acc, rej = vlib.tlc_trace(ctx, 'C06Trace', 'C06Trace.cfg', [lines[i] for i in part], min_per_shard=mps,
+                                  heap='3g' if mps > 1 else '6g', timeout=2400)
         accepted += acc
         for j, w in rej:
             why.setdefault(part[j], []).append(w)
@@ -277,64 +367,79 @@ def validate(ctx, evs):
 def describe(c, e, clauses):
     out = bytes(e['out']).decode('latin1')
     return '%s keepWhitespace=%s: %r -> %s  [%s]%s' % (
-        c.get('src', ''), c['keep'], bytes(c['in']).decode('latin1')[:300],
+        c.get('src', ''), c['keep'], c['in'].decode('latin1')[:300],
         'PANIC' if e['panic'] else repr(out[:300]), '; '.join(clauses),
         (' (' + e['outwhy'] + ')') if not e['outwf'] and not e['panic'] else '')
 
 
+CHUNK = 120000
+
+
 def run(ctx):
+    t0 = time.time()
     exe = vlib.build_harness(ctx, 'c06')
+    vlib.log('C06: build %.0fs' % (time.time() - t0))
     cases, stats = generate(ctx)
-    evs = run_cases(ctx, exe, cases, 'main')
-    for c, e in zip(cases, evs):
-        if c['src'] in ('mc', 'attr', 'sim', 'decorated') and not e['inwf']:
-            raise vlib.Infra('generated document rejected by the reader (%s): %r' % (e['inwhy'], bytes(c['in'])))
-    accepted, why = validate(ctx, evs)
-    # DRIFT: does the design model still predict the code's bytes?  (information, never a verdict)
-    drift = 0
-    drift_samples = []
-    compared = 0
-    for c, e in zip(cases, evs):
-        if c['pred'] is not None:
-            compared += 1
-            if list(e['out']) != list(c['pred']):
-                drift += 1
-                if len(drift_samples) < 5:
-                    drift_samples.append(dict(keep=c['keep'], **{'in': bytes(c['in']).decode('latin1')},
-                                              model=bytes(c['pred']).decode('latin1'), code=bytes(e['out']).decode('latin1')))
+    vlib.log('C06: %d cases generated' % len(cases))
+    accepted = judged = skipped = drift = compared = 0
+    drift_samples, samples = [], []
+    nontrivial = set()
+    rejected = []          # (case, clauses)
+    t0 = time.time()
+    for lo in range(0, len(cases), CHUNK):
+        part = cases[lo:lo + CHUNK]
+        metas, lines = run_cases(ctx, exe, part, 'main%d' % lo)
+        for c, e in zip(part, metas):
+            if c['src'] in ('mc', 'attr', 'sim', 'decorated') and not e['inwf']:
+                raise vlib.Infra('generated document rejected by the reader (%s): %r' % (e['inwhy'], c['in']))
+            if not e['inwf']:
+                skipped += 1
+                continue
+            judged += 1
+            out = bytes(e['out'])
+            if out != c['in']:
+                nontrivial.add((c['keep'], c['in']))
+            # DRIFT: does the design model still predict the code's bytes?  (information, never a verdict)
+            if c['pred'] is not None:
+                compared += 1
+                if out != c['pred']:
+                    drift += 1
+                    if len(drift_samples) < 5:
+                        drift_samples.append(dict(keep=c['keep'], **{'in': c['in'].decode('latin1')},
+                                                  model=c['pred'].decode('latin1'), code=out.decode('latin1')))
+            if len(samples) < 8 and c['id'] % 1777 == 5 and len(c['in']) < 400:
+                samples.append(dict(src=c['src'], keep=c['keep'], **{'in': c['in'].decode('latin1')}, out=out.decode('latin1')))
+        acc, why = validate(ctx, metas, lines)
+        accepted += acc
+        for i in sorted(why):
+            rejected.append((part[i], why[i]))
+        del metas, lines
+    vlib.log('C06: run + trace validation %.0fs, %d executions judged' % (time.time() - t0, judged))
     # every rejected execution is repeated alone in a fresh process and judged again before it counts
-    if why:
-        bad = sorted(why)
-        sub = [cases[i] for i in bad[:300]]
-        evs2 = run_cases(ctx, exe, sub, 'rerun')
-        acc2, why2 = validate(ctx, evs2)
-        for k in sorted(why2):
-            c, e = sub[k], evs2[k]
+    t0 = time.time()
+    if rejected:
+        ctx.coverage['rejections'] = len(rejected)
+        # each one alone in a fresh process of the driver; their traces are judged by one TLC run
+        rejected.sort(key=lambda cw: cw[0]['src'] != 'pinned')      # pinned witnesses first (stable)
+        sub = [c for c, _ in rejected[:40]]
+        metas2, lines2 = [], []
+        for c in sub:
+            m, l = run_cases(ctx, exe, [c], 'rerun')
+            metas2 += m
+            lines2 += l
+        acc2, why2 = validate(ctx, metas2, lines2)
+        for k, c in enumerate(sub):
+            if k not in why2:
+                raise vlib.Infra('rejection does not reproduce in isolation: %r' % c['in'][:200])
+            e = metas2[k]
             ctx.report(ident(c), describe(c, e, why2[k]),
                        replay_obj=dict(out=bytes(e['out']).decode('latin1'), clauses=why2[k], outwhy=e['outwhy']))
-        not_reproduced = [bad[k] for k in range(len(sub)) if k not in why2]
-        if not_reproduced:
-            raise vlib.Infra('rejections that do not reproduce in isolation: %r' % [bytes(cases[i]['in'])[:80] for i in not_reproduced[:5]])
-        ctx.coverage['rejections'] = len(bad)
-        ctx.coverage['rejections_reproduced'] = len(why2)
-    nontrivial = set()
-    judged = 0
-    skipped = 0
-    samples = []
-    for c, e in zip(cases, evs):
-        if not e['inwf']:
-            skipped += 1
-            continue
-        judged += 1
-        if list(e['out']) != list(c['in']):
-            nontrivial.add((c['keep'], bytes(c['in'])))
-        if len(samples) < 8 and c['id'] % 1777 == 5 and len(c['in']) < 400:
-            samples.append(dict(src=c['src'], keep=c['keep'], **{'in': bytes(c['in']).decode('latin1')},
-                                out=bytes(e['out']).decode('latin1')))
+        reproduced = len(why2)
+        ctx.coverage['rejections_reproduced'] = reproduced
+    vlib.log('C06: re-runs %.0fs' % (time.time() - t0))
     if not samples:
-        c, e = cases[len(cases) // 2], evs[len(cases) // 2]
-        samples.append(dict(src=c['src'], keep=c['keep'], **{'in': bytes(c['in']).decode('latin1')[:400]},
-                            out=bytes(e['out']).decode('latin1')[:400]))
+        c = cases[len(cases) // 2]
+        samples.append(dict(src=c['src'], keep=c['keep'], **{'in': c['in'].decode('latin1')[:400]}))
     ctx.coverage.update(stats)
     ctx.coverage.update(dict(
         traces_validated_against_impl=accepted,
@@ -348,9 +453,11 @@ def run(ctx):
         design_drift=drift,
         design_drift_samples=drift_samples,
         exhaustive=True,
-        exhaustive_bound='XmlMachine: all well-formed token streams with <= %d tokens over %d token kinds x KeepWhitespace; '
-                         'XmlAttr: all values with <= %d items over %d items x 2 quote kinds'
-                         % ((5, 18, 3, 22) if ctx.quick() else (6, 24, 4, 28)),
+        exhaustive_bound='XmlMachine: all well-formed token streams with <= %d tokens over %d token kinds x KeepWhitespace%s; '
+                         'XmlAttr: all values with <= %d items over %d items x 2 quote kinds%s'
+                         % ((5, 18, '', 3, 22, '') if ctx.quick() else
+                            (6, 29, ' (model-checked completely; of the 6-token streams a fixed 1/4 is also executed on the real code)',
+                             4, 28, ' (same)')),
     ))
     ctx.assumptions += [
         'encoding/xml (Strict) + the raw start-tag scanner of harness/cmd/c06 define what a document says; the two are cross-checked against each other on every start tag (disagreement = exit 2)',
@@ -362,15 +469,15 @@ def run(ctx):
 def replay(ctx, obj):
     exe = vlib.build_harness(ctx, 'c06')
     c = obj['case']
-    case = dict(id=0, keep=c['keep'], src='replay', pred=None, **{'in': list(c['in'].encode('latin1'))})
-    evs = run_cases(ctx, exe, [case], 'replay')
-    e = evs[0]
+    case = dict(id=0, keep=c['keep'], src='replay', pred=None, **{'in': c['in'].encode('latin1')})
+    metas, lines = run_cases(ctx, exe, [case], 'replay')
+    e = metas[0]
     print('in : %r' % c['in'])
     print('out: %r' % bytes(e['out']).decode('latin1'))
     if not e['inwf']:
         print('input is not well-formed for the reader (%s): outside the property' % e['inwhy'])
         return 0
-    acc, why = validate(ctx, evs)
+    acc, why = validate(ctx, metas, lines)
     if why:
         print('rejected:', '; '.join(why[0]), e['outwhy'])
         print('VIOLATION property=C06 replay=%s' % 'given')
